@@ -47,8 +47,10 @@ package dag
 //@   nopanic
 //@   pure wrapper
 //@   requires repo != nil && def.OperationUnmarshaler != nil
+//@   requires [wrapper-non-nil] forall e *Entity :: { wrapper(e) } e != nil ==> wrapper(e) != nil
 //@   modifies nothing
 //@   opt trusted_frame
+//@   ensures [non-nil]    err == nil ==> result != nil
 //@   ensures [ref-exists] err == nil ==> (ref in repository.refs)
 //@   defines [head]       err == nil ==> entity.entityHead(result) == repository.refs[ref]
 //@   check [head-is-ref]  err == nil ==> rootHash == repository.refs[ref]
@@ -79,6 +81,7 @@ package dag
 //@   props C02 C07 C06
 //@   pure wrapper
 //@   requires repo != nil && def.OperationUnmarshaler != nil
+//@   requires [wrapper-non-nil] forall e *Entity :: { wrapper(e) } e != nil ==> wrapper(e) != nil
 //@   let refs0 = old(repository.refs)
 //@   let l = refs0[localRef]
 //@   let r = refs0[remoteRef]
